@@ -108,7 +108,7 @@ func filterImage(image bufimage.Image, options *imageFilterOptions) (bufimage.Im
 		}
 		newImageFiles = append(newImageFiles, newImageFile)
 	}
-	if !dirty {
+	if !dirty && len(newImageFiles) == len(image.Files()) {
 		return image, nil
 	}
 	// Reverse the image files back to DAG order.
